@@ -75,10 +75,11 @@ var nyctIDRegex = regexp.MustCompile(`^[0-9]{6}_[0-9A-Za-z]{1,2}..[SN][0-9A-Za-z
 
 type c16Case struct {
 	kind, assigned, direction, trainID, preVehicle, idKind, tracks, firstTimes, nStops int
-	opts                                                                                nycttrips.ExtensionOpts
-	msg                                                                                 *gtfsrt.FeedMessage
-	ts                                                                                  uint64
-	staleAsserted                                                                       bool
+	opts                                                                               nycttrips.ExtensionOpts
+	msg                                                                                *gtfsrt.FeedMessage
+	ts                                                                                 uint64
+	staleAsserted                                                                      bool
+	header                                                                             int // 0 header timestamp set, 1 absent, 2 present with value 0
 }
 
 func genC16(c *Ctx) *c16Case {
@@ -117,6 +118,15 @@ func genC16(c *Ctx) *c16Case {
 		pre = &gtfsrt.VehicleDescriptor{Id: sp("orig-vehicle"), Label: sp("orig-label")}
 	}
 	m := newFeed(&k.ts)
+	// the header timestamp may be absent or 0: then no stop time is "earlier than the feed
+	// timestamp", while a missing first stop (time) is still missing
+	k.header = c.Free("header_timestamp", 3)
+	switch k.header {
+	case 1:
+		m.Header.Timestamp = nil
+	case 2:
+		m.Header.Timestamp = u64p(0)
+	}
 	if k.kind == 1 {
 		m.Entity = []*gtfsrt.FeedEntity{{Id: sp("e"), Vehicle: &gtfsrt.VehiclePosition{Trip: td, Vehicle: pre, StopId: sp("L08N")}}}
 		k.msg = m
@@ -187,7 +197,7 @@ func genC16(c *Ctx) *c16Case {
 func cp2(v int64) *int64 { return &v }
 
 func (k *c16Case) String() string {
-	return fmt.Sprintf("kind=%d assigned=%d direction=%d trainID=%d preVehicle=%d idKind=%d tracks=%d firstTimes=%d nStops=%d opts=%s", k.kind, k.assigned, k.direction, k.trainID, k.preVehicle, k.idKind, k.tracks, k.firstTimes, k.nStops, nyctOptName(k.opts))
+	return fmt.Sprintf("kind=%d assigned=%d direction=%d trainID=%d preVehicle=%d idKind=%d tracks=%d firstTimes=%d nStops=%d header=%d opts=%s", k.kind, k.assigned, k.direction, k.trainID, k.preVehicle, k.idKind, k.tracks, k.firstTimes, k.nStops, k.header, nyctOptName(k.opts))
 }
 
 func c16Rules(c *Ctx) {
@@ -211,7 +221,7 @@ func c16Rules(c *Ctx) {
 		switch {
 		case k.nStops == 0, k.firstTimes == 0, k.firstTimes == 10:
 			stale = true // first stop (time) missing
-		case k.firstTimes == 1, k.firstTimes == 4, k.firstTimes == 9:
+		case k.header == 0 && (k.firstTimes == 1 || k.firstTimes == 4 || k.firstTimes == 9):
 			stale = true // earlier than the feed timestamp
 		}
 	}
@@ -472,6 +482,75 @@ func c16MTrain(c *Ctx) {
 	c16TransparencyCheck(c, m, opts, tzOptions[0], fmt.Sprintf("route=%s trip_id=%s own start=%v stops=%q", route, tripID, ownStart, ids))
 }
 
+// c16Neighbours: a stale unassigned trip update (dropped when the filter is on) next to other
+// entities in every order: what is dropped is that trip update and nothing else.
+func c16Neighbours(c *Ctx) {
+	opts := nyctOptCombos[c.Free("options", 4)]
+	ts := uint64(1700000000)
+	no := false
+	staleTD := &gtfsrt.TripDescriptor{TripId: sp("060000_L..N"), RouteId: sp("L"), StartDate: sp("20231114")}
+	proto.SetExtension(staleTD, gtfsrt.E_NyctTripDescriptor, &gtfsrt.NyctTripDescriptor{TrainId: sp("0L 1000 8AV/RPY"), IsAssigned: &no, Direction: gtfsrt.NyctTripDescriptor_NORTH.Enum()})
+	ents := []*gtfsrt.FeedEntity{
+		{Id: sp("stale"), TripUpdate: &gtfsrt.TripUpdate{Trip: staleTD, StopTimeUpdate: []*gtfsrt.TripUpdate_StopTimeUpdate{{StopId: sp("L01N"), Departure: &gtfsrt.TripUpdate_StopTimeEvent{Time: cp2(int64(ts) - 600)}}}}},
+		{Id: sp("plainVP"), Vehicle: &gtfsrt.VehiclePosition{Vehicle: &gtfsrt.VehicleDescriptor{Id: sp("BUS1")}, Trip: &gtfsrt.TripDescriptor{TripId: sp("bus-trip")}, StopId: sp("B1")}},
+		{Id: sp("plainTU"), TripUpdate: &gtfsrt.TripUpdate{Trip: &gtfsrt.TripDescriptor{TripId: sp("bus-trip-2")}, StopTimeUpdate: []*gtfsrt.TripUpdate_StopTimeUpdate{{StopId: sp("B2")}}}},
+		{Id: sp("bareVP"), Vehicle: &gtfsrt.VehiclePosition{StopId: sp("B3")}},
+	}
+	perm := c.Perm("order", len(ents))
+	m := newFeed(&ts)
+	for _, j := range perm {
+		m.Entity = append(m.Entity, ents[j])
+	}
+	b := marshalFeed(m)
+	desc := "order=" + entityOrder(m) + " opts=" + nyctOptName(opts)
+	c.Input(hash64(string(b)+nyctOptName(opts)), true, func() string { return desc })
+	r, err, ok := parseRT(c, b, &gtfs.ParseRealtimeOptions{Extension: nycttrips.Extension(opts)})
+	if !ok {
+		return
+	}
+	if err != nil {
+		c.Fail("valid-message-rejected", "%v", err)
+		return
+	}
+	c.Steps(len(ents))
+	// expectation: the extension-free parse of the message without the stale entity (filter on) /
+	// of the other entities plus whatever the stale one yields (filter off: compared on the others only)
+	m2 := newFeed(&ts)
+	for _, e := range m.Entity {
+		if e.GetId() != "stale" {
+			m2.Entity = append(m2.Entity, e)
+		}
+	}
+	plain, err2, ok2 := parseRT(c, marshalFeed(m2), &gtfs.ParseRealtimeOptions{})
+	if !ok2 || err2 != nil {
+		return
+	}
+	keep := func(rt *gtfs.Realtime) string {
+		// everything except the NYCT trip itself (an unassigned trip has no vehicle)
+		cp := *rt
+		cp.Trips = nil
+		for i := range rt.Trips {
+			if rt.Trips[i].ID.ID != "060000_L..N" {
+				cp.Trips = append(cp.Trips, rt.Trips[i])
+			}
+		}
+		return dumpRealtime(&cp, rtDumpOpts{links: true, sortVehicles: true})
+	}
+	wd, gd := keep(plain), keep(r)
+	c.Outcome(gd)
+	if wd != gd {
+		c.Fail("not-transparent:neighbour-of-a-stale-trip", "%s: the entities next to a stale trip update do not parse as without the extension\n%s", desc, diffLines(wd, gd))
+	}
+	if opts.FilterStaleUnassignedTrips {
+		for i := range r.Trips {
+			if r.Trips[i].ID.ID == "060000_L..N" {
+				c.Fail("stale-filter", "%s: the stale unassigned trip was kept", desc)
+			}
+		}
+		c.Witness("stale_trip_dropped_next_to_other_entities")
+	}
+}
+
 func c16PlainFeeds(c *Ctx) {
 	opts := nyctOptCombos[c.Free("options", 4)]
 	g := genC02(c, true)
@@ -487,7 +566,7 @@ func init() {
 	register(&Check{
 		ID:    "C16",
 		Level: "model_checking",
-		Rule: "(a) all 1 000 000 six-digit origin prefixes; (b) full product of entity kind x is_assigned x direction x train id x existing vehicle descriptor x trip-id kind x tracks x first-stop times (both sides of and equal to the feed timestamp) x stop-time count x 4 option combinations; (c) transparency: route {M,J,-} x trip id {plain, two of the NYCT shape} x own start time x two stop ids over a 15-value alphabet x 4 options, and the rich C02 feed within 1 deviation x 4 options; " +
+		Rule: "(a) all 1 000 000 six-digit origin prefixes; (b) full product of entity kind x is_assigned x direction x train id x existing vehicle descriptor x trip-id kind x tracks x first-stop times (both sides of and equal to the feed timestamp) x stop-time count x header timestamp {set, absent, 0} x 4 option combinations; a stale unassigned trip update followed / preceded by plain and NYCT vehicle positions and a plain trip update; (c) transparency: route {M,J,-} x trip id {plain, two of the NYCT shape} x own start time x two stop ids over a 15-value alphabet x 4 options, and the rich C02 feed within 1 deviation x 4 options; " +
 			"non-trivial = distinct (message, options) pairs (origin prefixes below 600000); oracle = reference rules from the statement + differential against the extension-free parse",
 		Assumptions: []string{"direction is asserted for NORTH and SOUTH only", "the stale rule is not asserted when the first stop's departure is present with value 0 (indistinguishable from missing through proto2 getters)", "an assigned trip without a train id is not asserted to have a vehicle"},
 		Scenarios: func(tier string) []*Scenario {
@@ -499,6 +578,7 @@ func init() {
 				{Name: "origin-times", Bound: -1, Run: c16Origin},
 				{Name: "rules-product", Bound: -1, Run: c16Rules},
 				{Name: "shared-train-id", Bound: -1, Run: c16SharedTrain},
+				{Name: "neighbours-of-a-stale-trip", Bound: -1, Run: c16Neighbours},
 				{Name: "m-train-transparency", Bound: -1, Run: c16MTrain},
 				{Name: "plain-feeds", Bound: k, Run: c16PlainFeeds},
 			}
